@@ -57,6 +57,50 @@ func pkgFuncs(repo, dir string) (*token.FileSet, map[string]*ast.FuncDecl, error
 	return fset, out, nil
 }
 
+// pkgConsts returns the package-level constants (and `var x = <literal>`) of a package directory whose value is a basic
+// literal or a constant expression over other such constants: name -> defining expression. Use with singleDefsWith so
+// that `const quorumDenominator = 3` is inlined like a local.
+func pkgConsts(repo, dir string) map[string]ast.Expr {
+	out := map[string]ast.Expr{}
+	ents, err := os.ReadDir(filepath.Join(repo, dir))
+	if err != nil {
+		return out
+	}
+	fset := token.NewFileSet()
+	for _, e := range ents {
+		n := e.Name()
+		if e.IsDir() || !strings.HasSuffix(n, ".go") || strings.HasSuffix(n, "_test.go") || strings.HasPrefix(n, "verif_export_") {
+			continue
+		}
+		f, err := parser.ParseFile(fset, filepath.Join(repo, dir, n), nil, 0)
+		if err != nil {
+			continue
+		}
+		for _, d := range f.Decls {
+			gd, ok := d.(*ast.GenDecl)
+			if !ok || gd.Tok != token.CONST {
+				continue
+			}
+			for _, sp := range gd.Specs {
+				vs := sp.(*ast.ValueSpec)
+				if len(vs.Names) == len(vs.Values) {
+					for i, nm := range vs.Names {
+						out[nm.Name] = vs.Values[i]
+					}
+				}
+			}
+		}
+	}
+	return out
+}
+
+// singleDefsWith is singleDefs plus package-level constants as a fallback for names that have no local definition.
+func singleDefsWith(fn *ast.FuncDecl, consts map[string]ast.Expr) *defTable {
+	t := singleDefs(fn)
+	t.consts = consts
+	return t
+}
+
 func recvTypeName(e ast.Expr) string {
 	switch x := e.(type) {
 	case *ast.StarExpr:
@@ -126,8 +170,9 @@ type defSite struct {
 }
 
 type defTable struct {
-	defs []defSite
-	muts map[string][]token.Pos // positions at which a name is assigned / incremented / address-taken / range-assigned
+	consts map[string]ast.Expr // package-level constants (optional)
+	defs   []defSite
+	muts   map[string][]token.Pos // positions at which a name is assigned / incremented / address-taken / range-assigned
 }
 
 func isScope(n ast.Node) bool {
@@ -225,7 +270,10 @@ func singleDefs(fn *ast.FuncDecl) *defTable {
 
 // resolve returns the definition an identifier use refers to, or nil.
 func (t *defTable) resolve(id *ast.Ident) ast.Expr {
-	if t == nil || !id.Pos().IsValid() {
+	if t == nil {
+		return nil
+	}
+	if !id.Pos().IsValid() {
 		return nil
 	}
 	var best *defSite
@@ -235,7 +283,21 @@ func (t *defTable) resolve(id *ast.Ident) ast.Expr {
 			best = d
 		}
 	}
-	if best == nil || best.rhs == nil {
+	if best == nil {
+		if c, ok := t.consts[id.Name]; ok && len(t.muts[id.Name]) == 0 {
+			shadow := false
+			for i := range t.defs {
+				if t.defs[i].name == id.Name {
+					shadow = true
+				}
+			}
+			if !shadow {
+				return c
+			}
+		}
+		return nil
+	}
+	if best.rhs == nil {
 		return nil
 	}
 	for _, p := range t.muts[id.Name] {
